@@ -1202,3 +1202,62 @@ def oracle_C19(ctx, cases, answers):
         if (f["lt"] == "T") != (f["ord"] == "lt") or (f["le"] == "T") != (f["ord"] in ("lt", "eq")):
             v.append((i, "< / <= disagree with cmp"))
     return v
+
+
+# ---------------------------------------------------------------- C16
+
+def oracle_C16(ctx, cases, answers):
+    import json as _json
+    v = []
+    for i, (c, a) in enumerate(zip(cases, answers)):
+        st = c.get("stream")
+        if a in ("NA", "PANIC"):
+            continue
+        if st == "ser":
+            if not a.startswith("OK:"):
+                continue
+            f = fields(a)
+            if f.get("isstr") != "T":
+                v.append((i, "serialised form is not a single JSON string: %s" % a[:120]))
+                continue
+            canon = unhx(f["s"])
+            try:
+                val = _json.loads(unhx(f["json"]))
+            except Exception as e:
+                v.append((i, "serialised form is not JSON: %s" % e))
+                continue
+            if val != canon or unhx(f["jstr"]) != canon:
+                v.append((i, "serialised value %r is not the canonical string %r" % (val, canon)))
+                continue
+            back = f.get("back", "")
+            if not back.startswith("OK:") or not back.endswith(":T"):
+                v.append((i, "the JSON round trip does not give the PURL back: %s" % back[:100]))
+        elif st == "de-string":
+            ref = answers[c["reference"]]
+            rp = fields(ref).get("p", ref)
+            try:
+                is_str = isinstance(_json.loads(c["doc"]), str)
+            except Exception:
+                is_str = False
+            if not is_str:
+                continue
+            if rp.startswith("OK:"):
+                if a != rp:
+                    v.append((i, "deserialising %r gives %s, parsing the same string gives %s" % (c["doc"][:80], a[:100], rp[:100])))
+            elif rp.startswith("ERR:"):
+                if not a.startswith("ERR:serde"):
+                    v.append((i, "parsing %r fails (%s) but deserialising it gives %s" % (c["s"][:80], rp.split(":")[1], a[:100])))
+        elif st == "de-other":
+            try:
+                val = _json.loads(c["doc"])
+                is_str = isinstance(val, str)
+            except Exception:
+                is_str = False
+            if not is_str and not a.startswith("ERR:serde"):
+                v.append((i, "a value that is not a string (%r) is not refused: %s" % (c["doc"], a[:100])))
+        elif st == "pt":
+            f = fields(a)
+            name = c["ident"].lower()
+            if unhx(f["json"]) != _json.dumps(name) or f.get("back") != "T":
+                v.append((i, "serde form of PackageType::%s is %s" % (c["ident"], unhx(f["json"]))))
+    return v
